@@ -1,7 +1,7 @@
 (* Model of the generation-1 Dutch auction price path (x/auction):
      keeper/math.go   getOutflowTokenInitialPrice, getOutflowTokenEndPrice, getPriceFromLinearDecreaseFunction
      keeper/dutch.go:495-503 (and dutch_lend.go, same statements): the price update of the block hook
-   Definitions only.  The bid path (dutch.go:164-342) is NOT modelled yet. *)
+   Definitions only.  The bid path and the close follow further down. *)
 From Comdex Require Import Lib.Base Lib.DecArith.
 
 (* buffer.Mul(NewDec(price.Int64())) *)
@@ -45,6 +45,9 @@ Definition v1_posted_price (top endp dur t : Z) : option Z :=
                            movement of its own), RestartDutchLendAuctions (422-480)
      x/collector/keeper/collector.go:14 GetAmountFromCollector, :445 SetNetFeeCollectedData
      x/lend/keeper/funds.go:9 UpdateReserveBalances (dec)
+     x/liquidation/keeper/liquidate_borrow.go UnLiquidateLockedBorrows (345-): the price-feed requirement of the
+                           bid that closes a lend auction (after fix 6257748); x/lend/keeper/rates.go:30,
+                           x/market/keeper/oracle.go:166
    The ledger, [send], the outcome helpers and the account identifiers are those of Model/DutchV2. *)
 From Comdex Require Import Model.DutchV2.
 
@@ -170,8 +173,11 @@ Definition v1_close_vault (amount_out target : Z) (L : ledger) (nf : option Z) :
   if pen <? 0 then Err 22 else
   Ok (L2, Some (match nf with Some x => x + pen | None => pen end)).
 
-(* PlaceDutchAuctionBid / PlaceLendDutchAuctionBid.  [bid] is an amount of COLLATERAL the bidder wants. *)
-Definition v1_place_bid (cf : v1cfg) (amount_out : Z) (a : v1auc) (s : v1state) (who bid : Z) (wrong_denom : bool)
+(* PlaceDutchAuctionBid / PlaceLendDutchAuctionBid: the checks, the sale arithmetic and the bank movements of
+   the bid incl. those of a close.  [bid] is an amount of COLLATERAL the bidder wants.  What the close of a LEND
+   auction goes on to do in x/liquidation (UnLiquidateLockedBorrows) is [v1_lend_unliquidate] below; the whole
+   message is [v1_place_bid]. *)
+Definition v1_place_bid_core (cf : v1cfg) (amount_out : Z) (a : v1auc) (s : v1state) (who bid : Z) (wrong_denom : bool)
   : outcome (v1state * option v1auc * v1res) :=
   if bid =? 0 then Err 1 else
   if wrong_denom then Err 2 else
@@ -242,9 +248,72 @@ Definition v1_place_bid (cf : v1cfg) (amount_out : Z) (a : v1auc) (s : v1state) 
       end
     else Ok (mkV1S L2 (v_netfee s), Some a', mkV1R infl slice slice false reached 0).
 
+(* ---- the locked borrow behind a lend auction (x/liquidation LockedVault of a borrow position): the three
+   amounts the close of the auction reads.  They are set by x/liquidation when the auction is started
+   (CreateLockedBorrow / UpdateLockedBorrows) and no bid or block tick touches them before the close. *)
+Record v1lv := mkV1LV {
+  lv_in : Z;        (* LockedVault.AmountIn: collateral still locked, the lot of this auction already taken off *)
+  lv_out : Z;       (* LockedVault.AmountOut: principal owed *)
+  lv_uout : Z       (* LockedVault.UpdatedAmountOut: principal + interest owed *)
+}.
+
+(* a vault auction has no locked borrow behind it *)
+Definition v1_no_lv : v1lv := mkV1LV 0 0 0.
+
+Definition floor0 (x : Z) : Z := if x <=? 0 then 0 else x.
+
+(* CloseDutchLendAuction, dutch_lend.go:391-398: the auction's target comes off both debt amounts, floored at 0 *)
+Definition v1_lv_after_close (lv : v1lv) (target : Z) : v1lv :=
+  mkV1LV (lv_in lv) (floor0 (lv_out lv - target)) (floor0 (lv_uout lv - target)).
+
+(* market CalcAssetPrice (oracle.go:166): amt x twa / Decimals when the feed is found and active, else
+   ErrorPriceNotActive.  [feed] = Some twa when found and active *)
+Definition v1_asset_value (decimals : Z) (feed : option Z) (amt : Z) : outcome Z :=
+  match feed with
+  | None => Err 17
+  | Some twa => opanic (usd_value_c decimals (dec_of_int twa) amt)
+  end.
+
+(* x/liquidation UnLiquidateLockedBorrows (liquidate_borrow.go:345-, same-pool borrow, :436-470) as run by
+   CloseDutchLendAuction after it has written the locked vault back, after fix 6257748: nothing is left to decide
+   when the debt or the collateral of the locked borrow is used up (Ok None: the position is deleted);
+   otherwise lend CalculateCollateralizationRatio (rates.go:30) values the collateral, then the debt - each needs
+   its feed found and active, and its error is RETURNED (it was dropped before the fix and the ratio read as 0 =
+   healthy) - and divides.  The ratio decides between handing the borrow back and liquidating again: what
+   either does (borrow book-keeping, the next auction) is not modelled here; a next auction is a new start op. *)
+Definition v1_lend_unliquidate (cf : v1cfg) (lv : v1lv) (target : Z) (pin pout : option Z) : outcome (option Z) :=
+  let lv' := v1_lv_after_close lv target in
+  if lv_out lv' =? 0 then Ok None else
+  if lv_in lv' =? 0 then Ok None else
+  do tin <- v1_asset_value (v_dout cf) pout (lv_in lv');
+  do tout <- v1_asset_value (v_din cf) pin (lv_uout lv');
+  do ratio <- opanic (dquo_c tout tin);
+  Ok (Some ratio).
+
+(* MsgPlaceDutchBid / MsgPlaceDutchLendBid as a whole.  Vault auctions and every bid that leaves the auction
+   open: the core.  The bid that CLOSES a lend auction (dutch_lend.go:262-276 target reached, :277-317 collateral
+   sold out -> CloseDutchLendAuction :355-441) runs UnLiquidateLockedBorrows after all the sale computations and
+   transfers; when that fails the error goes up through PlaceLendDutchAuctionBid and the message's cache context
+   is dropped: the outcome carries no state, the caller keeps the state it had.
+   [pin] / [pout]: the oracle twa of the debt / collateral asset when found and active, at the time of the bid. *)
+Definition v1_place_bid (cf : v1cfg) (amount_out : Z) (lv : v1lv) (a : v1auc) (s : v1state) (who bid : Z) (wrong_denom : bool)
+           (pin pout : option Z)
+  : outcome (v1state * option v1auc * v1res) :=
+  match v1_place_bid_core cf amount_out a s who bid wrong_denom with
+  | Ok (s', None, r) =>
+      if v_lend cf then
+        match v1_lend_unliquidate cf lv (i_target a) pin pout with
+        | Ok _ => Ok (s', None, r)
+        | Err c => Err c
+        | Panic => Panic
+        end
+      else Ok (s', None, r)
+  | x => x
+  end.
+
 (* ---- one auction's life *)
 Inductive v1op :=
-| V1Bid (who amt : Z) (wrong_denom : bool)
+| V1Bid (who amt : Z) (wrong_denom : bool) (pin pout : option Z)
 | V1Tick (now : Z) (pin pout : option Z).
 
 Record v1life := mkV1L {
@@ -256,14 +325,14 @@ Record v1life := mkV1L {
   g_top : Z        (* ghost: shortfall covered by collector / reserve at the close *)
 }.
 
-Definition v1_step (cf : v1cfg) (amount_out : Z) (f : v1life) (o : v1op) : v1life :=
+Definition v1_step (cf : v1cfg) (amount_out : Z) (lv : v1lv) (f : v1life) (o : v1op) : v1life :=
   match g_a f with
   | None => f
   | Some a =>
       match o with
       | V1Tick now pin pout => mkV1L (g_s f) (Some (v1_tick cf now pin pout a)) (g_paid f) (g_recv f) (g_bonus f) (g_top f)
-      | V1Bid who amt wd =>
-          match v1_place_bid cf amount_out a (g_s f) who amt wd with
+      | V1Bid who amt wd pin pout =>
+          match v1_place_bid cf amount_out lv a (g_s f) who amt wd pin pout with
           | Ok (s', a', r) => mkV1L s' a' (g_paid f + w_paid r) (g_recv f + w_slice r)
                                     (g_bonus f + (w_recv r - w_slice r)) (g_top f + w_topup r)
           | _ => f
@@ -271,8 +340,8 @@ Definition v1_step (cf : v1cfg) (amount_out : Z) (f : v1life) (o : v1op) : v1lif
       end
   end.
 
-Definition v1_run (cf : v1cfg) (amount_out : Z) (f : v1life) (ops : list v1op) : v1life :=
-  fold_left (v1_step cf amount_out) ops f.
+Definition v1_run (cf : v1cfg) (amount_out : Z) (lv : v1lv) (f : v1life) (ops : list v1op) : v1life :=
+  fold_left (v1_step cf amount_out lv) ops f.
 
 (* ---- predicates on observations (runner) *)
 (* one successful bid at posted prices po (collateral) / pi (debt): the bidder pays at least the posted value
